@@ -76,6 +76,7 @@ class Reply(SerializableMixin, DictableMixin):
     def __init__(self, code=None, text=None):
         self.code = code
         self.text = text
+        self._multiline_code = None
 
     def parse(self, data):
         # Lines end with LF or CRLF.  A bare CR is data: splitting there
@@ -90,15 +91,27 @@ class Reply(SerializableMixin, DictableMixin):
             if not match:
                 raise ProtocolError('Failed to parse reply.')
 
-            if match.group(1) and match.group(2) == b' ':
+            line_text = match.group(3)
+
+            if self.text is None and match.group(1) \
+                    and match.group(2) == b'-':
+                # The reply ends with the line that starts with this very
+                # code and a space. rfc959 section 4.2.
+                self._multiline_code = match.group(1)
+
+            if match.group(1) and self._multiline_code \
+                    and match.group(1) != self._multiline_code:
+                # A text line that happens to begin with three digits.
+                line_text = line
+            elif match.group(1) and match.group(2) == b' ':
                 assert self.code is None
                 self.code = int(match.group(1))
 
             if self.text is None:
-                self.text = match.group(3).decode('utf-8',
-                                                  errors='surrogateescape')
+                self.text = line_text.decode('utf-8',
+                                             errors='surrogateescape')
             else:
-                self.text += '\r\n{0}'.format(match.group(3).decode(
+                self.text += '\r\n{0}'.format(line_text.decode(
                     'utf-8', errors='surrogateescape'))
 
     def to_bytes(self):
